@@ -70,3 +70,21 @@ claim('C08', 'property-based testing of group structure against a value-level ca
       'of groups, name->index map in opening order, m.groups() on texts, flag scope; failures shrink to minimal nestings.',
       'value-level reading of "is a group"; duplicate names and non-ASCII names unspecified',
       'DESIGN.md section 5 C08')
+
+claim('C11', 'stateful (history-based) property testing of the matching API against re, with generated operation sequences (Hypothesis)',
+      'For one pattern instance a generated sequence of compile / get_compiled_pattern(True|False) / purge / matching calls is executed; after every '
+      'matching call the result must equal re.search/fullmatch/finditer on str(p) under MULTILINE|DOTALL, positions must slice back to the match, '
+      'iterate_* must equal get_*, the returned compiled object must carry M|S and agree, and the cache state must follow the documented model.',
+      're on str(p) is the reference; the private cache attribute is read only if present',
+      'DESIGN.md section 5 C11')
+claim('C12', 'property-based testing of capture extraction against re.Match objects (Hypothesis)',
+      'Generated group layouts (named/unnamed in any order, nested, optional, empty-capable) x texts x include_empty x relative_to_match: every '
+      'get_/iterate_ capture method must equal the lists derived directly from re.Match (groups, groupdict, span(k), span(name)), and every '
+      'reported position must slice back to the captured text.',
+      're.Match of re.compile(str(p)) is the reference; captures inside lookarounds may lie outside the match (offset identity checked instead)',
+      'DESIGN.md section 5 C12')
+claim('C13', 'property-based round-trip testing of split/replace against re spans (Hypothesis)',
+      'split_by_match / split_by_capture pieces are recomputed from re.finditer spans and must rebuild the source; replace must equal the hand-built '
+      'string for every count (0 = all), equal repl.join(split) when all are replaced, and reject negative counts with the documented exception.',
+      'plain replacement strings only (no backslash); split_by_capture judged only for non-nested in-order captured spans',
+      'DESIGN.md section 5 C13')
